@@ -149,7 +149,9 @@ def c01_cli(ctx, broken):
         kv = dict(t.split("=", 1) for t in line.split()[1:])
         k, rc, recs = int(kv["k"]), kv["rc"] == "1", kv["recs"].split(",")
         d = fresh_dir(ctx, "c01cli")
-        write_fasta(os.path.join(d, "s1.fa"), recs)
+        # the file in one of its textual forms: one line per record, wrapped, CRLF, wrapped and CRLF
+        form = evaluations % 4
+        write_fasta(os.path.join(d, "s1.fa"), recs, wrap=[None, 7, None, 13][form], crlf=(form >= 2))
         mline, m, s = model_dict(ctx, k, rc, recs)
         info = build_and_nk(ctx, d, k, rc, [os.path.join(d, "s1.fa")])
         evaluations += 1
@@ -1230,6 +1232,10 @@ def c20_cli(ctx, broken):
                     for c_ in range(mult):
                         s_ = revcomp(frag) if (rc and c_ % 3 == 0) else frag
                         (r1 if c_ % 2 == 0 else r2).append(s_ + ":" + qual_letters(rnd, len(s_)))
+            if it == 3:
+                # no-signal reads: one split k-mer (poly-A, its own reverse complement's partner poly-T) seen more often than 16 bits count
+                for c_ in range(520):
+                    (r1 if c_ % 2 == 0 else r2).append("A" * (k + 133) + ":" + qual_letters(rnd, k + 133))
             if not r1:
                 r1.append(r2.pop())
             if not r2:
@@ -1391,7 +1397,8 @@ def c03_cli(ctx, broken):
             if rc:
                 recs = [revcomp(r) if rnd.random() < 0.4 else r for r in recs]
             f = os.path.join(d, f"{c03names[si]}.fa")
-            write_fasta(f, recs)
+            # each sample in its own textual form (wrap width, line endings)
+            write_fasta(f, recs, wrap=rnd.choice([None, 60, 70, 80, 11]), crlf=(rnd.random() < 0.4))
             files.append(f)
         # half of the families are handed over through a file list (-f) instead of positional arguments
         use_list = (tries % 2 == 1)
@@ -1974,6 +1981,31 @@ def c18_cli(ctx, broken):
         nontriv += 1
         if len(samples) < 2:
             samples.append({"k": k, "samples": nsamp, "planted": [(p, kd, ln) for (p, kd, ln, _, _) in indels], "reported": len(recs), "threads": threads})
+    # a second run under the same output prefix, on samples that differ by one SNP only: whatever the indel VCF
+    # holds afterwards must describe THESE samples (an earlier run's records are not real differences here)
+    if done:
+        k2 = 15
+        base2 = rand_genome(rnd, 300)
+        snp = rnd.randrange(4 * k2, 300 - 4 * k2)
+        alt2 = rnd.choice([x for x in "ACGT" if x != base2[snp]])
+        seqs2 = [base2, base2[:snp] + alt2 + base2[snp + 1:], base2, base2[:snp] + alt2 + base2[snp + 1:]]
+        if all(kmers_unique([s_], k2 - 1) for s_ in seqs2):
+            files2 = []
+            for si, s_ in enumerate(seqs2):
+                f = os.path.join(d, f"second{si}.fa")
+                write_fasta(f, [s_])
+                files2.append(f)
+            ska(["build", "-o", os.path.join(d, "y"), "-k", str(k2)] + files2, d)
+            code, out, err = ska(["lo", os.path.join(d, "y.skf"), os.path.join(d, "o"), "-m", "0.5"], d)
+            evals += 1
+            if code == 0 and os.path.exists(os.path.join(d, "o_indels.vcf")):
+                stale = [l.rstrip("\n").split("\t") for l in open(os.path.join(d, "o_indels.vcf")) if not l.startswith("#")]
+                hdr = [l for l in open(os.path.join(d, "o_indels.vcf")) if l.startswith("#CHROM")]
+                cols = hdr[0].rstrip("\n").split("\t")[9:] if hdr else []
+                if stale or cols != [f"second{i}" for i in range(4)]:
+                    return viol("after a second `ska lo` run under the same prefix the indel VCF does not describe the second run's samples (which differ by one SNP: no indel record, their names in the header)",
+                                records=[x[:9] for x in stale[:3]], header_samples=cols, k=k2, samples=seqs2)
+                nontriv += 1
     recall = found_total / planted_total if planted_total else 1.0
     res = {"summary": {"evaluations": evals, "nontrivial": nontriv, "pipeline_vs_model": pipe_kinds, "planted": planted_total, "reported_and_matched": found_total, "recall": round(recall, 3),
                        "what": "planted isolated indels (length 1-10, >= 4k apart, (k-1)-mers unique per sample), k in {11,15,21,31}, 3-8 samples, threads 1-4: every record checked by substring search in the samples (carriers exact, no wrong genotype, one planted indel each, none twice), recall >= 90% overall"},
@@ -2058,7 +2090,8 @@ def hist_via_cli(ctx, line):
     kv = kvs(line)
     w, k, rc = kv["w"], int(kv["k"]), kv["rc"] == "1"
     d = fresh_dir(ctx, "histcli")
-    cur = os.path.join(d, "cur.skf")
+    # a saved file is a saved file whatever it is called: half of the histories keep theirs under a name without .skf
+    cur = os.path.join(d, "cur.skf" if sum(line.encode()) % 2 == 0 else "current_table")
     core.run_impl(ctx, [f"mkskf w={w} k={k} rc={kv['rc']} table={kv['start']} out={cur}"], "mk")
     step = 0
     names_style = sum(line.encode()) % 2
@@ -2077,7 +2110,9 @@ def hist_via_cli(ctx, line):
                 other = os.path.join(d, f"{'abxz'[(blank_style + step) % 4]}other{step}.skf")
                 core.run_impl(ctx, [f"mkskf w={wo} k={ok_} rc={orc} table={f[1]} out={other}"], "mk")
                 pref, want = out_prefix(d, f"m{step}", blank_style + step)
-                code, out, err = ska(["merge", cur, other, "-o", pref], d)
+                # `-o` before, between or after the file names
+                margs = [["merge", cur, other, "-o", pref], ["merge", "-o", pref, cur, other], ["merge", cur, "-o", pref, other]][(blank_style + step) % 3]
+                code, out, err = ska(margs, d)
                 if code == 0:
                     if not os.path.exists(want):
                         return f"step{step}:output-not-at-{os.path.basename(want)}"
@@ -2089,7 +2124,8 @@ def hist_via_cli(ctx, line):
                     core.run_impl(ctx, [f"mkskf w={w} k={k} rc={kv['rc']} table={t} out={other}"], "mk")
                     others.append(other)
                 pref, want = out_prefix(d, f"m{step}", blank_style + step)
-                code, out, err = ska(["merge", cur] + others + ["-o", pref], d)
+                margs = [["merge", cur] + others + ["-o", pref], ["merge", cur, others[0], "-o", pref] + others[1:], ["merge", cur, "-o", pref] + others][(blank_style + step) % 3]
+                code, out, err = ska(margs, d)
                 if code == 0:
                     if not os.path.exists(want):
                         return f"step{step}:output-not-at-{os.path.basename(want)}"
@@ -2126,6 +2162,10 @@ def hist_via_cli(ctx, line):
                             os.replace(want, cur)
                     else:
                         code, out, err = ska(["delete", "-s", cur] + dargs, d)
+                        # `ska delete` without -o writes to the input name with `.skf` appended unless it ends so
+                        # already: for a file kept under a suffix-less name the result is next to it
+                        if code == 0 and not cur.endswith(".skf") and os.path.exists(cur + ".skf"):
+                            os.replace(cur + ".skf", cur)
             elif f[0] == "weed":
                 args = ["weed", cur]
                 if f[1] != "~":
@@ -2133,7 +2173,7 @@ def hist_via_cli(ctx, line):
                     wrecs = f[1].split("+")
                     # record names are labels, not keys: in some files every record has the same first word
                     wnames = [f"IS1 copy_{i}" for i in range(len(wrecs))] if (blank_style + step) % 2 == 0 else None
-                    write_fasta(wf, wrecs, names=wnames, wrap=[None, 11, 60][(blank_style + step) % 3], crlf=((blank_style + step) % 5 == 0))
+                    write_fasta(wf, wrecs, names=wnames, wrap=[None, 11, 60][(blank_style + step) % 3], crlf=((blank_style + step) % 2 == 1))
                     args.append(wf)
                 code, out, err = ska(["nk", cur], d)
                 n = len(parse_nk(out).get("names", []))
@@ -2261,7 +2301,7 @@ def map_via_cli(ctx, line):
             return classify_stderr(err)
     flags = (["--ambig-mask"] if kv.get("amask") == "1" else []) + (["--repeat-mask"] if kv.get("rmask") == "1" else [])
     style = sum(line.encode())
-    code, out, err = ska_out(["map", ref, skf] + flags, d, style, ["--threads", "2"] if style % 5 == 0 else [])
+    code, out, err = ska_out(["map", ref, skf] + flags, d, style, ["--threads", str(2 + style % 3)] if style % 2 == 0 else [])
     if code != 0:
         return classify_stderr(err)
     names = [l[1:] for l in out.splitlines() if l.startswith(">")]
@@ -2269,7 +2309,7 @@ def map_via_cli(ctx, line):
     while len(seqs) < len(names):
         seqs.append("")
     aln = ",".join(f"{n}:{q}" for n, q in zip(names, seqs)) or "~"
-    code, out, err = ska_out(["map", ref, skf, "-f", "vcf"] + flags, d, style + 1)
+    code, out, err = ska_out(["map", ref, skf, "-f", "vcf"] + flags, d, style + 1, ["--threads", str(2 + style % 3)] if style % 3 != 0 else [])
     if code != 0:
         return classify_stderr(err)
     raw, dec = [], []
@@ -2456,6 +2496,52 @@ def c06_big_cli(ctx, broken):
     return {"summary": {"evaluations": evals, "nontrivial": nontriv, "columns": len(want),
                         "what": "alignment of more than 65536 columns: columns (as a multiset) = stored rows, stdout and -o"},
             "samples": []}
+
+
+def c08_big_cli(ctx, broken):
+    """scale: `ska delete` on a file of more than 65536 split k-mers (thorough: more than 131072): the result must be
+    the file built from the remaining samples (T08_delete_eq_build is the oracle), names on the command line and -f"""
+    rnd = random.Random(ctx.seed * 553105253 + 7)
+    thorough = ctx.tier == "thorough"
+    evals = nontriv = 0
+    d = fresh_dir(ctx, "c08big")
+    k = rnd.choice([31, 33])
+    L = 150000 if thorough else 76000
+    base = rand_genome(rnd, L)
+    names = ["g_one", "g_two", "g_three", "g_four"]
+    files = []
+    for i, nm in enumerate(names):
+        sq = list(base)
+        for p_ in rnd.sample(range(L), L // 300):
+            sq[p_] = rnd.choice([x for x in "ACGT" if x != sq[p_]])
+        f = os.path.join(d, nm + ".fa")
+        write_fasta(f, ["".join(sq)], wrap=70)
+        files.append(f)
+    code, out, err = ska(["build", "-o", os.path.join(d, "all"), "-k", str(k), "--threads", "4"] + files, d)
+    if code != 0:
+        return {"summary": {"evaluations": 0, "nontrivial": 0}, "violation": {"kind": "c08-big", "what": "build failed", "stderr": err[-300:]}}
+    gone = [names[1], names[3]]
+    keep = [f for f, nm in zip(files, names) if nm not in gone]
+    ska(["build", "-o", os.path.join(d, "kept"), "-k", str(k)] + keep, d)
+    want = nk_table(parse_nk(ska(["nk", "--full-info", os.path.join(d, "kept.skf")], d)[1]))
+    for style in (0, 1):
+        if style == 0:
+            args = ["delete", "-s", os.path.join(d, "all.skf"), "-o", os.path.join(d, "d0")] + gone
+        else:
+            nf = os.path.join(d, "gone.txt")
+            open(nf, "w").write("\n".join(reversed(gone)) + "\n")
+            args = ["delete", "-s", os.path.join(d, "all.skf"), "-o", os.path.join(d, "d1"), "-f", nf]
+        code, out, err = ska(args, d)
+        evals += 1
+        got = nk_table(parse_nk(ska(["nk", "--full-info", os.path.join(d, f"d{style}.skf")], d)[1])) if code == 0 else None
+        nontriv += 1
+        if got != want:
+            return {"summary": {"evaluations": evals, "nontrivial": nontriv},
+                    "violation": {"kind": "c08-big", "what": "ska delete on a large file differs from the build of the remaining samples",
+                                  "k": k, "rows_expected": len(want[1]), "rows_after_delete": (len(got[1]) if got else None), "names": (got[0] if got else None),
+                                  "exit": code, "seed": ctx.seed, "how": "names on the command line" if style == 0 else "-f names file"}}
+    return {"summary": {"evaluations": evals, "nontrivial": nontriv, "rows": len(want[1]),
+                        "what": "delete on a file of more than 65536 split k-mers vs the build of the remaining samples"}, "samples": []}
 
 
 def joint_reads_cli(ctx, broken):
